@@ -589,6 +589,27 @@ theorem temp_then_block (H : History σ) (s : σ) (ts : List (Change σ)) (b : H
     rw [hcs]
     simp only [appendAll, e]
 
+/-- the first `Append` after temporary changes were executed undoes them, whatever is cached:
+    it behaves exactly like the same `Append` on the history that never saw them
+    (this is the line of `Append` that runs `tempChanges` rollbacks unconditionally). -/
+theorem temp_then_append (H : History σ) (s : σ) (ts : List (Change σ)) (h : Nat) (c : Change σ)
+    (ht : H.temp = []) (hb : h ≠ 0) (hinv : applyUndo ts (applyExec ts s) = s) :
+    append { H with temp := ts } (applyExec ts s) h c = append H s h c := by
+  cases hts : ts with
+  | nil => subst hts; simp [applyExec] at *; cases H; simp_all
+  | cons t ts' =>
+    unfold append
+    simp only [hb, if_false, ht, List.isEmpty_nil, List.isEmpty_cons, if_true]
+    rw [← hts, hinv]
+    simp
+
+/-- `RollbackSeekTo v` keeps exactly the entries of height `≤ v` (the entry of the target height stays) -/
+theorem rollbackSeekTo_changes (H : History σ) (s : σ) (v : Nat) (hlt : v < H.height) :
+    (rollbackSeekTo H s v).1.changes = H.changes.takeWhile (fun hc => hc.height ≤ v) ∧
+    (rollbackSeekTo H s v).1.height = v ∧ (rollbackSeekTo H s v).2 = s := by
+  have : ¬ (v ≥ H.height) := by omega
+  simp [rollbackSeekTo, this]
+
 theorem temp_then_rollback (H : History σ) (s : σ) (ts : List (Change σ)) (h : Nat)
     (ht : H.temp = []) (hlt : h < H.height)
     (hinv : applyUndo ts (applyExec ts s) = s) :
